@@ -186,17 +186,21 @@ nsync_note nsync_note_new (nsync_note parent,
 			   nsync_time abs_deadline) {
 	nsync_note n = (nsync_note) malloc (sizeof (*n));
 	if (n != NULL) {
+		int expired;
 		memset ((void *) n, 0, sizeof (*n));
 		nsync_dll_init_ (&n->parent_child_link, n);
 		set_expiry_time (n, abs_deadline);
-		if (!nsync_note_is_notified (n) && parent != NULL) {
+		expired = nsync_note_is_notified (n);
+		if (parent != NULL) {
 			nsync_time parent_time;
 			nsync_mu_lock (&parent->note_mu);
 			parent_time = NOTIFIED_TIME (parent);
+			/* The expiry time is the minimum over the ancestors even
+			   if abs_deadline has already passed.  */
 			if (nsync_time_cmp (parent_time, abs_deadline) < 0) {
 				set_expiry_time (n, parent_time);
 			}
-			if (nsync_time_cmp (parent_time, nsync_time_zero) > 0) {
+			if (!expired && nsync_time_cmp (parent_time, nsync_time_zero) > 0) {
 				n->parent = parent;
 				parent->children = nsync_dll_make_last_in_list_ (parent->children,
 					&n->parent_child_link);
